@@ -193,7 +193,9 @@ func runC36(c *Ctx) {
 			l, _ := g.LocOf(r)
 			facts := g.FactsAt(l)
 			if exprStr(r.Results[2]) == "nil" {
-				ex := factMatches(facts, func(ft Fact) bool { return !ft.Val && nosp(exprStr(ft.Cond)) == "!t.exists" || ft.Val && nosp(exprStr(ft.Cond)) == "t.exists" })
+				ex := factMatches(facts, func(ft Fact) bool {
+					return !ft.Val && nosp(exprStr(ft.Cond)) == "!t.exists" || ft.Val && nosp(exprStr(ft.Cond)) == "t.exists"
+				})
 				dec := factMatches(facts, func(ft Fact) bool { return !ft.Val && nosp(exprStr(ft.Cond)) == "t.decode==nil" })
 				noErr := !factMatches(facts, func(ft Fact) bool { return ft.Val && nosp(exprStr(ft.Cond)) == "err!=nil" })
 				okFinal = ex && dec && noErr
